@@ -252,6 +252,31 @@ Proof.
   - intros k i [].
 Qed.
 
+(* play(): the creation command travels as the completion message of /d_recv *)
+Lemma good_d_recv_msg : forall L nb a r, Good L (PStr a :: r) -> Good L [PStr "/d_recv"; PBytes nb; PList (PStr a :: r)].
+Proof.
+  intros L nb a r [w [W [C K]]]. unfold wire_msg in W.
+  remember (PList (PStr a :: r)) as xp eqn:Exp.
+  destruct (wire_arg xp) as [[|x [|y t]]|] eqn:Wx; try discriminate W; destruct x; try discriminate W.
+  inversion W; subst w. clear W.
+  match type of Wx with _ = Some [AMsg ?s0 ?l0] =>
+    eapply (good_build L "/d_recv" [PBytes nb; xp] ([ABytes nb] ++ [AMsg s0 l0]) _ ([] ++ [])) end.
+  - cbn [wire_args wire_arg]. rewrite Wx. reflexivity.
+  - reflexivity.
+  - apply shape_compl_none; reflexivity.
+  - cbn [app forallb]. match goal with |- context [arg_conf (AMsg ?s0 ?l0)] => change (arg_conf (AMsg s0 l0)) with (conforms (s0, l0)) end. rewrite C. reflexivity.
+  - intros k i [].
+  - cbn [app flat_map]. rewrite app_nil_r. exact K.
+Qed.
+
+Lemma good_play : forall L s n nb def id a tg args,
+  inv_objs s = true -> plain def = true -> sargs_ok n args = true ->
+  (a = 0 \/ a = 1 \/ a = 2 \/ a = 3 \/ a = 4) -> known L KNode id -> known L KNode tg ->
+  Good L [PStr "/d_recv"; PBytes nb; PList (s_new_msg false s def (PInt id) a (PInt tg) args)].
+Proof.
+  intros. unfold s_new_msg. apply good_d_recv_msg. eapply (good_s_new L s n def id a tg args); eassumption.
+Qed.
+
 (* ---- multi-packet operations ---- *)
 Lemma forallb_firstn : forall {A} (f : A -> bool) n l, forallb f l = true -> forallb f (firstn n l) = true.
 Proof.
